@@ -221,3 +221,17 @@ func (as Arenas) ScribbleAll() {
 		a.Scribble()
 	}
 }
+
+// Walk is the sequence of input lengths successive calls on ONE object go through: growing, shrinking down to empty,
+// growing again - so that any per-object scratch buffer, cache or high-water-mark state shows in a later call.
+// min is the smallest admissible length (lengths below it are dropped), step scales the classes.
+func Walk(min int) []int {
+	base := []int{0, 1, 15, 16, 17, 33, 64, 100, 257, 100, 64, 33, 17, 16, 15, 1, 0, 1, 16, 40, 5, 0, 31}
+	var out []int
+	for _, n := range base {
+		if n >= min {
+			out = append(out, n)
+		}
+	}
+	return out
+}
